@@ -650,6 +650,27 @@ def canonical_control(mod):
             if plain(t) and plain(b) and ast.dump(t) == ast.dump(b):
                 return ast.copy_location(ast.BoolOp(op=ast.Or(), values=[b, node.orelse]), node)
             return node
+    class _InForm(ast.NodeTransformer):
+        """X == c1 or X == c2 [or ...]  ->  X in (c1, c2, ...)   (same X, constants; X a plain name / attribute)"""
+        def visit_BoolOp(self, node):
+            self.generic_visit(node)
+            if not isinstance(node.op, ast.Or) or len(node.values) < 2:
+                return node
+            left = None
+            consts = []
+            for v in node.values:
+                if not (isinstance(v, ast.Compare) and len(v.ops) == 1 and isinstance(v.ops[0], ast.Eq) and isinstance(v.comparators[0], ast.Constant)
+                        and isinstance(v.comparators[0].value, (str, int)) and (isinstance(v.left, ast.Name) or isinstance(v.left, ast.Attribute))):
+                    return node
+                d = ast.dump(v.left)
+                if left is None:
+                    left = d
+                elif left != d:
+                    return node
+                consts.append(v.comparators[0])
+            cnt[0] += 1
+            new = ast.Compare(left=node.values[0].left, ops=[ast.In()], comparators=[ast.Tuple(elts=consts, ctx=ast.Load())])
+            return ast.copy_location(new, node)
     before = n
     tr = _OrForm()
     cnt = [0]
@@ -662,6 +683,7 @@ def canonical_control(mod):
         return r
     tr.visit_IfExp = counting
     tr.visit(mod.tree)
+    _InForm().visit(mod.tree)
     n += cnt[0]
     if n:
         set_parents(mod.tree)
